@@ -139,7 +139,7 @@ def check_run(case, res, facts):
     opts = case["opts"]
     v = []
     if res["timed_out"]:
-        return [{"cls": "liveness-timeout", "site": "-", "detail": "no exit within %ss" % runner.RUN_TIMEOUT}]
+        return [{"cls": "liveness-timeout", "site": "-", "detail": "no exit within %ss" % res.get("budget_s", runner.RUN_TIMEOUT)}]
     if res["rc"] != 0:
         exc, site, msg = core.failure_site(res)
         return [{"cls": "exit-%s" % res["rc"], "site": "%s:%s" % (site, exc), "detail": msg}]
@@ -324,3 +324,59 @@ def reduce_candidates(case):
                 yield dict(c, world=w2)
     for w2 in world_reductions(c["world"]):
         yield dict(c, world=w2)
+
+
+MATRIX_WORLDS = {"quick": 1, "thorough": 4}
+
+
+def extra_phase(tier, master, facts, src, log):
+    """The option matrix of the property, enumerated: every entry point x {default method, each -m it accepts, a one-entry and a
+    two-entry [accounting_methods] schedule} x {default language, each -g it ships} x {no window, -f, -t, -f and -t (not for jp)} on
+    fixed multi-asset worlds, under the baseline host. The sampled cases cover the matrix only as far as the dice fall."""
+    import os  # pylint: disable=import-outside-toplevel
+
+    from .. import engine  # pylint: disable=import-outside-toplevel
+
+    n_worlds = int(os.environ.get("RP2SIM_MATRIX_WORLDS", "0")) or MATRIX_WORLDS[tier]
+    cases = []
+    cells = 0
+    for k in range(n_worlds):
+        for ci, country in enumerate(tree.COUNTRIES):
+            rng = random.Random(gen.case_seed(master, PROP + "-matrix", k * 10 + ci))
+            swarm = {"optional_cols": k % 2 == 0, "permute": True, "shapes": True, "mixed_tz": True, "need_uid": True, "n_assets": 2 + k % 2, "n_rows": rng.choice([6, 10, 16]),
+                     "few_prices": k % 2 == 1, "micro": k % 3 == 0}
+            world = None
+            for _ in range(50):
+                world = W.gen_world(rng, swarm, country)
+                if W.validate(world)[0]:
+                    break
+            fc = facts[country]
+            years = W.local_years(world)
+            methods = [("default", None, None)] + [("-m " + m, m, None) for m in fc["methods"]]
+            methods.append(("schedule1", None, [[max(1970, years[0] - 1), fc["methods"][-1]]]))
+            methods.append(("schedule2", None, [[max(1970, years[0] - 3), fc["default_method"]], [years[0] + 1, fc["methods"][-1]]]))
+            langs = [None] + list(fc["languages"])
+            dates = sorted({W.parse_ts(r["timestamp"]).date() for _, _, r in W.all_rows(world)})
+            mid = dates[len(dates) // 2]
+            windows = [("none", None, None), ("from", mid.isoformat(), None), ("to", None, mid.isoformat())]
+            if country != "jp":
+                windows.append(("both", dates[0].isoformat(), mid.isoformat()))
+            for mname, m, sched in methods:
+                for lang in langs:
+                    for wname, f, t in windows:
+                        w2 = W.clone(world)
+                        w2["methods"] = sched
+                        opts = {"country": country, "method": m, "lang": lang, "from": f, "to": t, "neg": False, "asset": None, "prefix": "", "outdir": "out",
+                                "path_style": "rel", "files_in": "", "env": {"CURRENCY_CODE": "usd", "LONG_TERM_CAPITAL_GAINS": "365"} if country == "generic" else {}}
+                        cells += 1
+                        cases.append({"property": PROP, "seed": gen.case_seed(master, PROP + "-matrix", k * 10 + ci), "index": 3 * 10**9 + len(cases), "swarm": swarm, "world": w2,
+                                      "opts": opts, "host": dict(gen.BASE_HOST), "prestate": [], "readonly_inputs": False, "matrix_cell": "%s/%s/%s/%s" % (country, mname, lang or "default-language", wname)})
+    outs = engine.run_cases(PROP, cases, src=src)
+    for c, o in zip(cases, outs):
+        if "stats" in o:
+            o["stats"]["matrix_sweep_runs"] = 1
+            o["stats"]["sweepcell:" + c["matrix_cell"]] = 1
+    hit = len({c["matrix_cell"] for c in cases})
+    log("C16 option-matrix sweep: %d worlds x 5 entry points, %d runs, %d distinct (entry point, method, language, window) cells" % (n_worlds, cells, hit))
+    return outs, {"coverage": {"option_matrix_enumerated": {"worlds_per_entry_point": n_worlds, "runs": cells, "distinct_cells": hit,
+                                                            "dimensions": "entry point x {default, each -m, schedule of 1, schedule of 2} x {default language, each shipped -g} x {none, from, to, from+to (not jp)}; every default report generator of the entry point runs in each cell"}}}
